@@ -12,7 +12,13 @@
 (*                | rt [op, f, amb, clock, id, t]: a nested Runtime used   *)
 (*                  as a destination; it runs the pipeline again with its  *)
 (*                  own filter, ambient properties and clock               *)
-(* A configuration is [own, extent, ambient, clock, rtf, csf, em, entry]:  *)
+(* Entry points: Runtime::emit ("rt"), Emitter::emit on a Runtime, emit_core::emit ("core"),  *)
+(* emit!(extent:, props:) ("macro"), info!(..) ("macro_lvl"), emit!(evt: Event::new(..))     *)
+(* ("macro_evt"), emit!(evt: evt!(extent:, ..)) ("evt_macro"), a Span / Metric event with an *)
+(* explicit extent through Runtime::emit ("span_evt", "metric_evt"), a SpanGuard whose       *)
+(* extent is computed from two clock readings (programmatic "span_guard", new_span!          *)
+(* "span_macro"), Emitter::emit on the destination tree ("direct").                          *)
+(* A configuration is [own, extent, ambient, clock, clock2, rtf, csf, em, entry]:  *)
 (* the event's own properties (a sequence of [k, v], duplicates allowed),  *)
 (* its extent, the ambient properties, the clock (None or a reading), the  *)
 (* runtime's filter, the call-site filter ([op |-> "absent"] when there is *)
@@ -51,7 +57,24 @@ vars == <<cfg, pc, amb, ext, log, work>>
 
 FWrap == {"opt", "ref", "box", "arc", "erased", "assert"}
 Strippable == {"ref", "box", "arc", "erased", "assert"}
-Pipeline == {"rt", "rt_as_emitter", "core", "macro", "macro_evt"}
+Pipeline == {"rt", "rt_as_emitter", "core", "macro", "macro_evt", "macro_lvl", "evt_macro",
+             "span_evt", "metric_evt", "span_guard", "span_macro"}
+\* entries whose event gets its extent from two readings of the runtime's clock (at start
+\* and at completion); the configuration's `extent` is not used by them
+SpanGuards == {"span_guard", "span_macro"}
+
+Range(a, b) == [kind |-> "range", a |-> a, b |-> b]
+
+\* what an entry point itself puts in front of the event's own properties
+\* (evt_kind Span = 31 / Metric = 32, names and the metric value as in C02; lvl Info = 52)
+EntryPrefix(entry) ==
+    CASE entry \in {"span_evt", "span_guard", "span_macro"} ->
+            <<[k |-> "evt_kind", v |-> 31], [k |-> "span_name", v |-> 41]>>
+      [] entry = "metric_evt" ->
+            <<[k |-> "evt_kind", v |-> 32], [k |-> "metric_name", v |-> 42],
+              [k |-> "metric_agg", v |-> 43], [k |-> "metric_value", v |-> 44]>>
+      [] entry = "macro_lvl" -> <<[k |-> "lvl", v |-> 52]>>
+      [] OTHER -> <<>>
 
 NoExtent == [kind |-> "none", a |-> 0, b |-> 0]
 Point(t) == [kind |-> "point", a |-> t, b |-> t]
@@ -77,15 +100,27 @@ PredHolds(p, ev) ==
       [] p = "ext_none" -> ev.ext.kind = "none"
       [] p = "ext_point" -> ev.ext.kind = "point"
       [] p = "ext_range" -> ev.ext.kind = "range"
+      [] p = "ext_inverted" -> ev.ext.kind = "range" /\ ev.ext.b < ev.ext.a    \* ends before it starts
+      [] p = "ext_empty" -> ev.ext.kind = "range" /\ ev.ext.b = ev.ext.a
       [] p = "ext_clock" -> ev.ext = Point(ClockT)
       [] p = "ext_9" -> ev.ext = Point(9)                     \* the reading of a nested runtime's clock
 
 OwnEvent(c) == [props |-> c.own, ext |-> c.extent]
 
+\* the event's own extent: whatever was given - absent, a point, a forward, empty or
+\* inverted range are all extents of their own - or, for a span guard, the range between
+\* the clock's two readings
+OwnExtent(c) ==
+    IF c.entry \in SpanGuards
+    THEN (IF c.clock # None THEN Range(c.clock, c.clock2) ELSE NoExtent)
+    ELSE c.extent
+
+OwnProps(c) == EntryPrefix(c.entry) \o c.own
+
 \* the event exactly as destinations must see it
 Built(c) ==
-    [props |-> c.own \o c.ambient,
-     ext |-> IF c.extent.kind # "none" THEN c.extent
+    [props |-> OwnProps(c) \o c.ambient,
+     ext |-> IF OwnExtent(c).kind # "none" THEN OwnExtent(c)
              ELSE IF c.clock # None THEN Point(c.clock) ELSE NoExtent]
 
 \* what a rewriting wrapping passes on: a = 77 in front (so it wins)
@@ -224,9 +259,14 @@ SnapshotCtxt ==
     /\ UNCHANGED <<cfg, ext, work>>
 
 \* evt.extent().cloned().or_else(|| clock.now().to_extent())
+\* a span guard: Timer::start reads the clock, Timer::extent reads it again; the completion
+\* then emits with an Empty clock
 ResolveExtent ==
     /\ pc = "extent"
-    /\ IF cfg.extent.kind # "none"
+    /\ IF cfg.entry \in SpanGuards
+       THEN /\ ext' = OwnExtent(cfg)
+            /\ log' = log \o <<[t |-> "clock", id |-> 0], [t |-> "clock", id |-> 0]>>
+       ELSE IF cfg.extent.kind # "none"
        THEN ext' = cfg.extent /\ log' = log
        ELSE /\ ext' = IF cfg.clock # None THEN Point(cfg.clock) ELSE NoExtent
             /\ log' = Append(log, [t |-> "clock", id |-> 0])
@@ -236,8 +276,11 @@ ResolveExtent ==
 \* if filter.matches(&evt) { emitter.emit(evt) }   with   FirstDefined(when, rt.filter())
 EvalFilter ==
     /\ pc = "filter"
-    /\ LET ev == [props |-> cfg.own \o amb, ext |-> ext]
-           r == Eval(Eff(cfg), ev)
+    \* (a span guard's filter is consulted when the span begins, on the span without its
+    \* extent - documented; the configurations give such entries filters that do not look
+    \* at the extent, so this is the event of the statement for them too)
+    /\ LET ev == [props |-> OwnProps(cfg) \o amb, ext |-> ext]
+           r == Eval(Eff(cfg), IF cfg.entry \in SpanGuards THEN [ev EXCEPT !.ext = NoExtent] ELSE ev)
        IN /\ log' = log \o FLog(r.inv)
           /\ IF r.res
              THEN pc' = "dispatch" /\ work' = <<[t |-> cfg.em, ev |-> ev]>>
